@@ -28,6 +28,7 @@ RULE = ('binop: pairs of conforming files (same structure, independent '
         'distinct = digest of the spec.')
 RULE += (" One case in eight takes its operands from the library's READERS (the object a CAMx memory-mapped or record reader, bpch1, bpch2, arlpackedbit or ffi1001 returns for a valid image written by the independent codecs; second operand = its copy with other values): big-endian float32 data, +-max and denormal payloads, integer time flags; the time-flag variables of IOAPI-class files are the class's metadata and not judged here.")
 RULE += (" Disk operands: in half of the cases the left operand's coordinate variables are stored packed (int16 + scale_factor/add_offset). One case in 24: an IOAPI file with unevenly spaced steps opened from disk (TFLAG a declared coordinate, judged as such).")
+RULE += (' One receiver from disk in three (plain files) is written with netCDF4 directly, as other tools write archive files: float data variables packed (int16 with scale_factor/add_offset), masks as _FillValue; the oracle snapshots what the opened file delivers.')
 ASSUMPTIONS = [
     'cells masked in either operand are a don\'t-care region for the result '
     'MASK (the property does not say input masks propagate) but an unmasked '
@@ -236,8 +237,8 @@ def run_binop(spec, res, a=None):
     if spec.get('disk'):
         # both operands are files on disk (saved, opened again)
         with harness.casedir() as d, harness.handles() as h:
-            a2 = harness.to_disk(a, d, h, name='a.nc')
-            b2 = harness.to_disk(b, d, h, name='b.nc')
+            a2 = harness.to_disk(a, d, h, res=res, foreign=True, name='a.nc')
+            b2 = harness.to_disk(b, d, h, res=res, foreign=True, name='b.nc')
             if a2 is not None and b2 is not None and spec['seed'] % 2 == 0:
                 # the left operand's coordinate variables are stored packed
                 # on disk (short integers with scale_factor / add_offset)
